@@ -63,6 +63,10 @@ def snapshot(root):
 
 
 def restore(root, snap):
+    for rt in (os.path.realpath(root).encode(), root.encode()):
+        if rt not in _ROOTS:
+            _ROOTS.insert(0, rt)
+            del _ROOTS[8:]
     if os.path.isdir(root):
         shutil.rmtree(root)
     if os.path.isdir(os.path.realpath(root) + '.tmpfs'):
@@ -136,13 +140,20 @@ def write_world(root, files, dirs=()):
     return restore(root, snap)
 
 
+_ROOTS = []      # world roots of the current run (registered by restore): their absolute paths are not part of a tree's identity
+
+
 def tree_digest(snap):
     h = hashlib.sha256()
     for r in sorted(snap):
         h.update(r.encode('utf-8', 'surrogateescape'))
         h.update(b'\0')
         if snap[r] is not None:
-            h.update(hashlib.sha256(snap[r]).digest())
+            c = snap[r]
+            for rt in _ROOTS:
+                if rt in c:
+                    c = c.replace(rt, b'<ROOT>')     # a file that quotes the absolute path of the budget (a traceback, a log) is the same file in another scratch directory
+            h.update(hashlib.sha256(c).digest())
         h.update(b'\1')
     return h.hexdigest()
 
